@@ -207,6 +207,19 @@ def check(ctx):
                         r2.bad(V(r2.id, f.id, "parse-error-leaves-loop", "the Err arm of syn::parse_file leaves the directory walk", pc.file, pc.line))
                     else:
                         r2.ok("Err arm continues with the next directory entry")
+        # ... and it is *reported*: some diagnostic output is reached whenever parse_file answered Err, whatever the verbosity
+        reports = []
+        for c in f.calls:
+            if c.bb in f.reach_blocks and (c.path in ("std::io::_eprint", "std::io::_print") or "Logger::" in short_path(c.best) or "ProgressReporter::" in short_path(c.best)):
+                conds = f.must_conditions(c.bb, sequencing=False)
+                if any(re.search(r"parse_file\(\)=Err", x) for x in conds):
+                    reports.append(conds)
+        if any(not any("verbose" in x for x in conds) for conds in reports):
+            r2.ok("a file that does not parse is reported unconditionally")
+        else:
+            r2.bad(V(r2.id, f.id, "parse-failure-not-reported:%s" % ("verbose-only" if reports else "never"),
+                     "a file that fails to parse is skipped %s: the default run drops its commands without saying so"
+                     % ("and reported only when verbose is set" if reports else "silently"), f.file, f.line))
     for fid in sorted(reach):
         f = P.fns[fid]
         for c in f.calls:
